@@ -97,7 +97,8 @@ impl Blob {
 
         // Update blob section header with actual lenght
         let end_offset = writer.physical_position()?;
-        section_header.section_length = length;
+        // The section length covers the section header and the blob data, padded to four bytes
+        section_header.section_length = (16 + length + 3) / 4 * 4; // Integer division with rounding up
         writer.physical_seek(start_offset)?;
         section_header.to_writer(writer)?;
         writer.physical_seek(end_offset)?;
